@@ -96,8 +96,10 @@ def inject(crate, hdir, variant):
     s = open(lib).read()
     s = "#![cfg_attr(kani, recursion_limit = \"1024\")]\n#![cfg_attr(kani, allow(unused, dead_code))]\n#![cfg_attr(kani, feature(core_io_borrowed_buf, read_buf))]\n" + s
     s += "\n#[cfg(kani)]\n#[path = \"%s\"]\n#[macro_use]\npub mod verif_common;\n" % os.path.join(hdir, "common.rs")
-    if variant == "mapsub":
+    if "mapsub" in variant:
         s += "\n#[cfg(kani)]\n#[path = \"%s\"]\npub mod verif_map;\n" % os.path.join(hdir, "verif_map.rs")
+    if "iosub" in variant:
+        s += "\n#[cfg(kani)]\n#[path = \"%s\"]\npub mod verif_io;\n" % os.path.join(hdir, "verif_io.rs")
     open(lib, "w").write(s)
     for src, h in INJECT.items():
         hp = os.path.join(hdir, h)
@@ -106,13 +108,36 @@ def inject(crate, hdir, variant):
             continue
         with open(sp, "a") as f:
             f.write("\n#[cfg(kani)]\n#[path = \"%s\"]\npub mod verif_kani;\n" % hp)
-    if variant == "mapsub":
+    if "iosub" in variant:
+        iosub(crate)
+    if "mapsub" in variant:
         for src, h in MAPSUB_INJECT.items():
             hp = os.path.join(hdir, h)
             if os.path.exists(hp):
                 with open(os.path.join(crate, src), "a") as f:
                     f.write("\n#[cfg(kani)]\n#[path = \"%s\"]\npub mod verif_kani_ms;\n" % hp)
         mapsub(crate)
+
+
+def iosub(crate):
+    """Reduce the payload of Error::Io / Error::Locked to its ErrorKind (crate::verif_io::IoErr, DESIGN 10.7). Touches the two
+    variant declarations in error.rs and the places that wrap a std::io::Error into them."""
+    n = 0
+    for root, _d, files in os.walk(os.path.join(crate, "src")):
+        for fn in files:
+            if not fn.endswith(".rs"):
+                continue
+            p = os.path.join(root, fn)
+            s = o = open(p).read()
+            if fn == "error.rs":
+                s = s.replace("Io(io::Error),", "Io(crate::verif_io::IoErr),").replace("Locked(io::Error),", "Locked(crate::verif_io::IoErr),")
+            s = re.sub(r"map_err\((?:crate::error::)?Error::Io\)", "map_err(crate::verif_io::io)", s)
+            s = re.sub(r"map_err\((?:crate::error::)?Error::Locked\)", "map_err(crate::verif_io::locked)", s)
+            s = re.sub(r"Err\(e\) => return Err\(Error::Io\(e\)\)", "Err(e) => return Err(Error::Io(e.into()))", s)
+            if s != o:
+                n += 1
+                open(p, "w").write(s)
+    return n
 
 
 MAPSUB_INJECT = {"src/db.rs": "db_ms.rs", "src/log.rs": "log_ms.rs", "src/column.rs": "column_ms.rs"}
